@@ -17,28 +17,28 @@ Open Scope Z_scope.
 (* list, map, select (one- and two-value) and exists comprehensions, for EVERY list of for-phrases
    (induction on the phrase list), every container content, filter and element expression:
    value(s), final environment and effect trace of the compiled closure = the documented meaning *)
-Theorem C02_comprehension_correct : forall err_text self en k zero ps E tr vs tr',
-  Forall wf_phrase ps -> lower_comprehension k zero ps = Some E ->
+Theorem C02_comprehension_correct : forall err_text self en k zero ps tr vs tr',
+  Forall wf_phrase ps ->
   spec_comprehension k zero ps en tr = Some (vs, tr') ->
-  ev err_text self E en tr = (RVal vs, en, tr').
+  ev err_text self (lower_comprehension k zero ps) en tr = (RVal vs, en, tr').
 Proof. exact comprehension_correct. Qed.
 
 (* the four kinds, as named instances *)
-Theorem C02_comprehension_list_correct : forall err_text self en elt zero ps E tr vs tr',
-  Forall wf_phrase ps -> lower_comprehension (CList elt) zero ps = Some E ->
-  spec_comprehension (CList elt) zero ps en tr = Some (vs, tr') -> ev err_text self E en tr = (RVal vs, en, tr').
+Theorem C02_comprehension_list_correct : forall err_text self en elt zero ps tr vs tr',
+  Forall wf_phrase ps ->
+  spec_comprehension (CList elt) zero ps en tr = Some (vs, tr') -> ev err_text self (lower_comprehension (CList elt) zero ps) en tr = (RVal vs, en, tr').
 Proof. exact comprehension_list_correct. Qed.
-Theorem C02_comprehension_map_correct : forall err_text self en ke ve zero ps E tr vs tr',
-  Forall wf_phrase ps -> lower_comprehension (CMap ke ve) zero ps = Some E ->
-  spec_comprehension (CMap ke ve) zero ps en tr = Some (vs, tr') -> ev err_text self E en tr = (RVal vs, en, tr').
+Theorem C02_comprehension_map_correct : forall err_text self en ke ve zero ps tr vs tr',
+  Forall wf_phrase ps ->
+  spec_comprehension (CMap ke ve) zero ps en tr = Some (vs, tr') -> ev err_text self (lower_comprehension (CMap ke ve) zero ps) en tr = (RVal vs, en, tr').
 Proof. exact comprehension_map_correct. Qed.
-Theorem C02_comprehension_select_correct : forall err_text self en elt two zero ps E tr vs tr',
-  Forall wf_phrase ps -> lower_comprehension (CSelect elt two) zero ps = Some E ->
-  spec_comprehension (CSelect elt two) zero ps en tr = Some (vs, tr') -> ev err_text self E en tr = (RVal vs, en, tr').
+Theorem C02_comprehension_select_correct : forall err_text self en elt two zero ps tr vs tr',
+  Forall wf_phrase ps ->
+  spec_comprehension (CSelect elt two) zero ps en tr = Some (vs, tr') -> ev err_text self (lower_comprehension (CSelect elt two) zero ps) en tr = (RVal vs, en, tr').
 Proof. exact comprehension_select_correct. Qed.
-Theorem C02_comprehension_exists_correct : forall err_text self en zero ps E tr vs tr',
-  Forall wf_phrase ps -> lower_comprehension CExists zero ps = Some E ->
-  spec_comprehension CExists zero ps en tr = Some (vs, tr') -> ev err_text self E en tr = (RVal vs, en, tr').
+Theorem C02_comprehension_exists_correct : forall err_text self en zero ps tr vs tr',
+  Forall wf_phrase ps ->
+  spec_comprehension CExists zero ps en tr = Some (vs, tr') -> ev err_text self (lower_comprehension CExists zero ps) en tr = (RVal vs, en, tr').
 Proof. exact comprehension_exists_correct. Qed.
 
 (* the last for-phrase is the outermost loop, in the compiled code and in the documented meaning *)
@@ -69,11 +69,15 @@ Theorem C02_send_append_correct : forall err_text self en a l (ews : list (expr 
   ex err_text self (lower_send a (map (fun x => fst (fst x)) ews)) en tr = (RVal tt, en', tr ++ concat (map snd ews)).
 Proof. exact send_append_ok. Qed.
 
-(* REFUTED (known finding): a blank loop variable — `[e for _ <- xs]`, `{for _ <- xs}`, `for _ <- xs {}` —
-   lowers to `for _, _ := range xs`, which Go rejects; the documented meaning exists *)
-Theorem C02_blank_variable_refuted : forall k zero x c,
-  lower_comprehension k zero [{| ph_key := None; ph_val := None; ph_x := x; ph_cond := c |}] = None.
-Proof. exact blank_rejected. Qed.
+(* a blank loop variable (`for _ <- xs`, emitted as `for range xs` since the repair of the
+   `for _, _ := range` lowering) is an ordinary instance of the theorems above: such a phrase is
+   well-formed, and its documented meaning is one evaluation of the element per item *)
+Theorem C02_blank_variable_wf : forall x c, wf_phrase {| ph_key := None; ph_val := None; ph_x := x; ph_cond := c |}.
+Proof. exact blank_wf. Qed.
+Theorem C02_blank_variable_meaning : forall en e v0 l zero tr, pev en e = Some (v0, []) ->
+  spec_comprehension (CList e) zero [{| ph_key := None; ph_val := None; ph_x := EConst (VList l); ph_cond := None |}] en tr
+  = Some ([VList (map (fun _ => v0) l)], tr).
+Proof. exact blank_list. Qed.
 
 (* non-vacuity: [x+y for x <- [1,3,5] if x > 1 for y <- p7([10,20])]  (y outermost; the probe on the outer
    container runs once, first) *)
@@ -83,11 +87,13 @@ Example C02_example_two_phrases :
   let py := {| ph_key := None; ph_val := Some (NUser 2); ph_x := EProbe 7 (EConst (VList [VInt 10; VInt 20])); ph_cond := None |} in
   let k := CList (EBin BAdd (EVar (NUser 1)) (EVar (NUser 2))) in
   spec_comprehension k (VInt 0) [px; py] [] [] = Some ([VList [VInt 13; VInt 15; VInt 23; VInt 25]], [Ev 7%N [VList [VInt 10; VInt 20]]])
-  /\ match lower_comprehension k (VInt 0) [px; py] with
-     | Some E => eval (fun _ => []) 2 E [] [] = (RVal [VList [VInt 13; VInt 15; VInt 23; VInt 25]], [], [Ev 7%N [VList [VInt 10; VInt 20]]])
-     | None => False
-     end.
+  /\ eval (fun _ => []) 2 (lower_comprehension k (VInt 0) [px; py]) [] []
+     = (RVal [VList [VInt 13; VInt 15; VInt 23; VInt 25]], [], [Ev 7%N [VList [VInt 10; VInt 20]]]).
 Proof. vm_compute. auto. Qed.
+Example C02_example_blank :
+  eval (fun _ => []) 2 (lower_comprehension CExists (VInt 0) [{| ph_key := None; ph_val := None; ph_x := EConst (VList [VInt 4]); ph_cond := None |}]) [] []
+  = (RVal [VBool true], [], []).
+Proof. vm_compute. reflexivity. Qed.
 Example C02_example_select :
   let px := {| ph_key := Some (NUser 3); ph_val := Some (NUser 1); ph_x := EConst (VList [VInt 1; VInt 3; VInt 5]);
                ph_cond := Some (EBin BGt (EProbe 4 (EVar (NUser 1))) (EConst (VInt 1))) |} in
@@ -104,4 +110,5 @@ Print Assumptions C02_last_phrase_outermost.
 Print Assumptions C02_forphrase_correct.
 Print Assumptions C02_single_phrase_is_map_filter.
 Print Assumptions C02_send_append_correct.
-Print Assumptions C02_blank_variable_refuted.
+Print Assumptions C02_blank_variable_wf.
+Print Assumptions C02_blank_variable_meaning.
